@@ -2,7 +2,7 @@
 //! with the source picture; the encoder model is compared byte for byte under the observed strip order.
 use crate::util::*;
 use serde_json::{json, Value};
-use surf_n_term::{Color, Image, ImageHandler, Position, Shape, SixelImageHandler, Size, RGBA};
+use surf_n_term::{Color, Image, ImageHandler, Position, Shape, SixelImageHandler, Size, Surface, RGBA};
 
 type Rgb = [u8; 3];
 
@@ -103,13 +103,24 @@ pub fn run(input: &Value) -> Case {
         heights.push(r1.min(im.h).saturating_sub(r0));
         widths.push(c1.min(im.w).saturating_sub(c0));
         max_colors = max_colors.max(distinct.len());
+        // the key the handler uses: Surface::hash of the view (height, width, every pixel of the view)
+        let key = {
+            let pixels: Vec<RGBA> = im.data.iter().map(|p| RGBA::new(p[0], p[1], p[2], p[3])).collect();
+            let parent = Image::from_parts(pixels.into(), Shape::from(Size::new(im.h, im.w)));
+            let view = match im.crop {
+                None => parent,
+                Some((r0, r1, c0, c1)) => parent.crop(r0..r1, c0..c1),
+            };
+            Surface::hash(&view)
+        };
         coq_imgs.push(format!(
-            "({}%nat, {})",
+            "({}%nat, {}, {})",
             img_parent[k],
             match im.crop {
                 None => "None".to_string(),
                 Some((r0, r1, c0, c1)) => format!("Some ({}%nat, {}%nat, {}%nat, {}%nat)", r0, r1, c0, c1),
-            }
+            },
+            key
         ));
     }
     let shared_parent = img_parent.len() > parents.len();
